@@ -183,7 +183,7 @@ func BuildCodeAt(prog *emuchk.Program, base, entry uint64) (*deps.Code, *elf.Mem
 	for i := range data {
 		data[i] = byte(i * 7)
 	}
-	img, err := elf.VerifNewMemory([]model.Addr{emuchk.Data, model.Addr(base)}, [][]byte{data, code})
+	img, err := elf.VerifNewMemory([]model.Addr{model.Addr(emuchk.Data), model.Addr(base)}, [][]byte{data, code})
 	return dcode, img, err
 }
 
